@@ -95,6 +95,7 @@ pub const POISON_KINDS: &[&str] = &[
     "add_glue_unnamed",
     "add_unrelated",
     "ans_ns_nonancestor",
+    "alias_into_local",
     // replies that must be discarded whole, carrying tagged records
     "discard_wrong_id",
     "discard_qr_clear",
@@ -147,6 +148,8 @@ pub struct UniverseNet {
     pub fault_kinds: Vec<String>,
     pub forced: Vec<ForcedFault>,
     pub exchanges: Vec<Exchange>,
+    /// Names local authoritative zones own (targets for `alias_into_local`).
+    pub local_targets: Vec<String>,
     counters: BTreeMap<String, u32>,
     tag: u32,
     served: BTreeMap<IpAddr, Vec<usize>>,
@@ -173,6 +176,7 @@ impl UniverseNet {
             fault_kinds: Vec::new(),
             forced: Vec::new(),
             exchanges: Vec::new(),
+            local_targets: Vec::new(),
             counters: BTreeMap::new(),
             tag: 0,
             served,
@@ -531,7 +535,9 @@ impl UniverseNet {
                 .filter(|n| !under(&qname, n) && !under(n, &qname) && n != ".")
                 .collect();
             let h = world::with(|w| w.derived("upstream.poison_victim", &qname));
-            if names.is_empty() {
+            if !self.local_targets.is_empty() && h % 3 == 0 {
+                self.local_targets[usize::try_from((h / 3) % self.local_targets.len() as u64).unwrap()].clone()
+            } else if names.is_empty() {
                 "victim.invalid.".to_string()
             } else {
                 names[usize::try_from(h % names.len() as u64).unwrap()].clone()
@@ -554,6 +560,24 @@ impl UniverseNet {
                 resp.answers.push(rr(&qname, &format!("CNAME {other}"), 300));
                 let a = self.tagged_a(&other, 300);
                 resp.answers.push(a);
+            }
+            "alias_into_local" => {
+                // an alias from the question name into a name a local zone owns,
+                // with a forged record at that name in the same reply
+                if !self.local_targets.is_empty() {
+                    let h = world::with(|w| w.derived("upstream.local_target", &qname));
+                    let t = self.local_targets[usize::try_from(h % self.local_targets.len() as u64).unwrap()].clone();
+                    resp.answers.clear();
+                    resp.authority.clear();
+                    resp.header.rcode = Rcode::NoError;
+                    resp.answers.push(rr(&qname, &format!("CNAME {t}"), 300));
+                    let forged = if qtype == Some(QueryType::Record(RecordType::TXT)) {
+                        self.tagged_txt(&t, 300)
+                    } else {
+                        self.tagged_a(&t, 300)
+                    };
+                    resp.answers.push(forged);
+                }
             }
             "ans_soa" => {
                 let t = self.next_tag();
